@@ -3,11 +3,11 @@
    Proved for every start packet built by [init] and every operation list:
      counts_match, no_duplicate_outpoints, kinds_compatible; from ANY state and for ANY operation:
      modifiable_respected, locktime_is_max_of_selected_kind (full since fix 3710385),
-     multi_part_ops_atomic (full for every multi-part operation but the blinder since fix fd68736).
+     multi_part_ops_atomic (full since fix: commits fd68736 and 7d6e201).
    What today's code still violates is kept visible with a proved _partial and a _refuted witness
    (vm_compute) replayed on the real code by the S oracle (harness/rolescheck.go, corpus/hist.txt):
-     blinder_atomic (Input.GetUtxo writes the range proof), finalized_inputs_frozen (AddInIssuance on a
-     finalized input), reachable_roundtrips (setters that write before SanityCheck).
+     finalized_inputs_frozen (AddInIssuance on a finalized input), reachable_roundtrips (setters that
+     write before SanityCheck).
    The counterexamples of the first runs that /repo has repaired since are Examples that now behave. *)
 From Coq Require Import List NArith ZArith Bool Lia.
 From Coq Require Import ZifyBool ZifyN ZifyNat.
@@ -456,16 +456,69 @@ Qed.
 Lemma publish_err : forall p q, snd (publish p q) = Err -> fst (publish p q) = p.
 Proof. intros p q; unfold publish; destruct (sanity q); cbn; [discriminate|reflexivity]. Qed.
 
-Definition is_blind (o : op) : bool := match o with OBlind _ => true | _ => false end.
 Definition issue_plain : issue_args :=
   {| is_prec := 0; is_contract := 0; is_aamt := 1000; is_tamt := 0; is_aaddr := 1; is_taddr := 0; is_blinded := false |}.
 
-(* when a multi-part operation returns an error the packet is unchanged — every multi-part operation
-   but the blinder, whose constructor calls the getter that writes (below) *)
-Theorem multi_part_ops_atomic : forall p o,
-  snd (step p o) = Err -> is_multi_part o = true -> is_blind o = false -> fst (step p o) = p.
+(* the blinder's reads (NewBlinder, validateBlindingArgs) no longer write: fix 7d6e201 *)
+Lemma get_utxo_same : forall c a u a', get_utxo c a = GuSome u a' -> a' = a.
 Proof.
-  intros p o He Hm Hb.
+  intros c a u a' H; unfold get_utxo in H.
+  destruct (a_w a); [inversion H; reflexivity|].
+  destruct (negb (a_nw a)); [discriminate|].
+  destruct (nth_error prevouts (N.to_nat (N.min (c_idx c) 1000))); [|discriminate].
+  inversion H; reflexivity.
+Qed.
+
+Definition bres_auxs (b : bres) : list aux := match b with BGo x => x | BStop x _ => x end.
+
+Lemma owned_validate_same : forall p owned auxs, bres_auxs (owned_validate p auxs owned) = auxs.
+Proof.
+  intros p; induction owned as [|i rest IH]; intros auxs; cbn [owned_validate]; [reflexivity|].
+  destruct (Z.of_N (g_nin p) - 1 <? Z.of_N i)%Z; [reflexivity|].
+  destruct (nth_error (p_cores p) (N.to_nat i)) as [c|]; [|reflexivity].
+  destruct (nth_error auxs (N.to_nat i)) as [a|] eqn:Ea; [|reflexivity].
+  destruct (get_utxo c a) as [| |u a'] eqn:Eg; [reflexivity|reflexivity|].
+  apply get_utxo_same in Eg; subst a'. rewrite (set_nth_same _ _ _ Ea). apply IH.
+Qed.
+
+Lemma prevout_loop_same : forall owned cs n auxs, bres_auxs (prevout_loop cs n auxs owned) = auxs.
+Proof.
+  intros owned; induction cs as [|c cs IH]; intros n auxs; cbn [prevout_loop]; [reflexivity|].
+  destruct (existsb (fun i => i =? N.of_nat n) owned); [apply IH|].
+  destruct (nth_error auxs n) as [a|] eqn:Ea; [|reflexivity].
+  destruct (get_utxo c a) as [| |u a'] eqn:Eg; [reflexivity|reflexivity|].
+  apply get_utxo_same in Eg; subst a'. rewrite (set_nth_same _ _ _ Ea). apply IH.
+Qed.
+
+Lemma do_blind_not_ok : forall p a parts r, do_blind p a = (parts, r) -> r <> Ok ->
+  parts = (p_auxs p, p_outs p, g_scalars p).
+Proof.
+  intros p a parts r H Hr; unfold do_blind in H.
+  destruct (negb (sanity p)); [inversion H; auto|].
+  destruct (negb (needs_blinding p)); [inversion H; auto|].
+  destruct (bl_owned a) as [|o0 orest] eqn:Eo; [inversion H; auto|]. rewrite <- Eo in H.
+  pose proof (owned_validate_same p (bl_owned a) (p_auxs p)) as F1.
+  destruct (owned_validate p (p_auxs p) (bl_owned a)) as [auxs1|auxs1 o1]; cbn [bres_auxs] in F1; subst auxs1;
+    [|inversion H; subst; auto].
+  destruct (is_fully_blinded p); [inversion H; subst; congruence|].
+  destruct (existsb (fun x => (Z.of_N (g_nin p) - 1 <? Z.of_N (fst x))%Z) (bl_iss a)); [inversion H; subst; auto|].
+  destruct (negb (outargs_validate p (bl_last a) (sort_by_idx (bl_outs a)))); [inversion H; subst; auto|].
+  pose proof (prevout_loop_same (bl_owned a) (p_cores p) 0 (p_auxs p)) as F2.
+  destruct (prevout_loop (p_cores p) 0 (p_auxs p) (bl_owned a)) as [auxs2|auxs2 o2]; cbn [bres_auxs] in F2; subst auxs2;
+    [|inversion H; subst; auto].
+  destruct (negb (outargs_proofs p a (sort_by_idx (bl_outs a)))); [inversion H; subst; auto|].
+  destruct (bl_gfail a =? 1); [inversion H; subst; auto|].
+  destruct (sort_by_idx (bl_outs a)) as [|x0 xs] eqn:Es; [inversion H; subst; auto|]. rewrite <- Es in H.
+  destruct (blind_outs a (sort_by_idx (bl_outs a)) (p_outs p)) as [outs' done].
+  destruct (negb done); [inversion H; subst; auto|].
+  match type of H with (if ?b then _ else _) = _ => destruct b end; inversion H; subst; auto. congruence.
+Qed.
+
+(* when a multi-part operation returns an error the packet is unchanged: any packet, every multi-part operation *)
+Theorem multi_part_ops_atomic : forall p o,
+  snd (step p o) = Err -> is_multi_part o = true -> fst (step p o) = p.
+Proof.
+  intros p o He Hm.
   assert (forall o', step p o' = (let '((auxs, outs, sc), r) := local_step p o' in (upd p auxs outs sc, r)) ->
           (forall parts r, local_step p o' = (parts, r) -> r <> Ok -> parts = (p_auxs p, p_outs p, g_scalars p)) ->
           snd (step p o') = Err -> fst (step p o') = p) as Hloc.
@@ -498,105 +551,23 @@ Proof.
     intros H _; inversion H; reflexivity.
   - apply Hloc; [reflexivity| |exact He]. cbn [local_step]. intros parts r. apply staged_parts_not_ok.
   - apply Hloc; [reflexivity| |exact He]. cbn [local_step]. intros parts r. apply staged_parts_not_ok.
+  - (* blinder *) apply Hloc; [reflexivity| |exact He]. cbn [local_step]. intros parts r. apply do_blind_not_ok.
   - (* FinalizeAll *) apply Hloc; [reflexivity| |exact He]. cbn [local_step]. intros parts r.
     destruct (finalize_loop finalize_local (p_cores p) 0 (length (p_cores p)) (p_auxs p) (p_outs p) (g_scalars p)).
     apply staged_parts_not_ok.
 Qed.
 
-(* the blinder: a failing (or panicking) call leaves everything as it was EXCEPT the range proof that
-   Input.GetUtxo copies into the stored previous outputs *)
-Definition forget (a : aux) : aux := set_a_nwrp false a.
-
-Lemma get_utxo_forget : forall c a u a', get_utxo c a = GuSome u a' -> forget a' = forget a.
-Proof.
-  intros c a u a' H; unfold get_utxo in H.
-  destruct (a_w a); [inversion H; reflexivity|].
-  destruct (negb (a_nw a)); [discriminate|].
-  destruct (nth_error prevouts (N.to_nat (N.min (c_idx c) 1000))); [|discriminate].
-  inversion H; subst. destruct a; reflexivity.
-Qed.
-
-Lemma map_forget_set_nth : forall n a a' l, nth_error l n = Some a -> forget a' = forget a ->
-  map forget (set_nth n a' l) = map forget l.
-Proof.
-  intros n a a' l; revert n; induction l as [|h t IH]; intros [|n] Hn Hf; cbn in *; try discriminate; auto.
-  - inversion Hn; subst; rewrite Hf; reflexivity.
-  - f_equal; auto.
-Qed.
-
-Definition bres_auxs (b : bres) : list aux := match b with BGo x => x | BStop x _ => x end.
-
-Lemma owned_validate_forget : forall p owned auxs,
-  map forget (bres_auxs (owned_validate p auxs owned)) = map forget auxs.
-Proof.
-  intros p; induction owned as [|i rest IH]; intros auxs; cbn [owned_validate]; [reflexivity|].
-  destruct (Z.of_N (g_nin p) - 1 <? Z.of_N i)%Z; [reflexivity|].
-  destruct (nth_error (p_cores p) (N.to_nat i)) as [c|]; [|reflexivity].
-  destruct (nth_error auxs (N.to_nat i)) as [a|] eqn:Ea; [|reflexivity].
-  destruct (get_utxo c a) as [| |u a'] eqn:Eg; [reflexivity|reflexivity|].
-  rewrite IH. eapply map_forget_set_nth; eauto. eapply get_utxo_forget; eauto.
-Qed.
-
-Lemma prevout_loop_forget : forall owned cs n auxs,
-  map forget (bres_auxs (prevout_loop cs n auxs owned)) = map forget auxs.
-Proof.
-  intros owned; induction cs as [|c cs IH]; intros n auxs; cbn [prevout_loop]; [reflexivity|].
-  destruct (existsb (fun i => i =? N.of_nat n) owned); [apply IH|].
-  destruct (nth_error auxs n) as [a|] eqn:Ea; [|reflexivity].
-  destruct (get_utxo c a) as [| |u a'] eqn:Eg; [reflexivity|reflexivity|].
-  rewrite IH. eapply map_forget_set_nth; eauto. eapply get_utxo_forget; eauto.
-Qed.
-
-Lemma do_blind_not_ok : forall p a auxs outs sc r, do_blind p a = ((auxs, outs, sc), r) -> r <> Ok ->
-  outs = p_outs p /\ sc = g_scalars p /\ map forget auxs = map forget (p_auxs p).
-Proof.
-  intros p a auxs outs sc r H Hr; unfold do_blind in H.
-  destruct (negb (sanity p)); [inversion H; auto|].
-  destruct (negb (needs_blinding p)); [inversion H; auto|].
-  destruct (bl_owned a) as [|o0 orest] eqn:Eo; [inversion H; auto|]. rewrite <- Eo in H.
-  pose proof (owned_validate_forget p (bl_owned a) (p_auxs p)) as F1.
-  destruct (owned_validate p (p_auxs p) (bl_owned a)) as [auxs1|auxs1 o1]; cbn [bres_auxs] in F1;
-    [|inversion H; subst; auto].
-  destruct (is_fully_blinded p); [inversion H; subst; auto|].
-  destruct (existsb (fun x => (Z.of_N (g_nin p) - 1 <? Z.of_N (fst x))%Z) (bl_iss a)); [inversion H; subst; auto|].
-  destruct (negb (outargs_validate p (bl_last a) (sort_by_idx (bl_outs a)))); [inversion H; subst; auto|].
-  pose proof (prevout_loop_forget (bl_owned a) (p_cores p) 0 auxs1) as F2.
-  destruct (prevout_loop (p_cores p) 0 auxs1 (bl_owned a)) as [auxs2|auxs2 o2]; cbn [bres_auxs] in F2;
-    [|inversion H; subst; repeat split; auto; congruence].
-  assert (map forget auxs2 = map forget (p_auxs p)) as F3 by congruence.
-  destruct (negb (outargs_proofs p a (sort_by_idx (bl_outs a)))); [inversion H; subst; auto|].
-  destruct (bl_gfail a =? 1); [inversion H; subst; auto|].
-  destruct (sort_by_idx (bl_outs a)) as [|x0 xs] eqn:Es; [inversion H; subst; auto|]. rewrite <- Es in H.
-  destruct (blind_outs a (sort_by_idx (bl_outs a)) (p_outs p)) as [outs' done].
-  destruct (negb done); [inversion H; subst; auto|].
-  match type of H with (if ?b then _ else _) = _ => destruct b end; inversion H; subst; auto. congruence.
-Qed.
-
-Theorem blinder_atomic_partial : forall p a, snd (step p (OBlind a)) <> Ok ->
-  exists auxs, fst (step p (OBlind a)) = upd p auxs (p_outs p) (g_scalars p)
-               /\ map forget auxs = map forget (p_auxs p).
-Proof.
-  intros p a Hr. cbn [step local_step] in *.
-  destruct (do_blind p a) as [[[auxs outs] sc] r] eqn:E. cbn [fst snd] in *.
-  destruct (do_blind_not_ok _ _ _ _ _ _ E Hr) as (-> & -> & F). exists auxs; split; auto.
-Qed.
-
-(* full statement for the blinder (refuted): snd (step p (OBlind a)) = Err -> fst (step p (OBlind a)) = p.
-   Witness: non-witness utxo + utxo range proof on the owned input, surjection proof refused by the validator *)
+(* the old counterexample of the blinder (Input.GetUtxo wrote the range proof; fix 7d6e201): non-witness utxo and a
+   utxo range proof on the owned input, surjection proof refused by the validator — nothing is left behind now *)
 Definition blind_refused : blind_args :=
   {| bl_last := true; bl_owned := [0]; bl_iss := []; bl_outs := [(0, 0)]; bl_surj := false; bl_basset := true;
      bl_range := true; bl_bvalue := true; bl_gfail := 0; bl_scalar := 7 |}.
 
-Theorem blinder_atomic_refuted :
-  exists ins outs fb p0 ops, init ins outs fb = IOk p0 /\
-    snd (step (run p0 ops) (OBlind blind_refused)) = Err /\ fst (step (run p0 ops) (OBlind blind_refused)) <> run p0 ops.
-Proof.
-  exists [{| ia_cls := 0; ia_t := 0; ia_idx := 0; ia_seq := 0; ia_height := 0; ia_time := 0 |}],
-         [{| oa_cls := 0; oa_amount := 1000; oa_script := Some (SWpkh 1); oa_bk := 1; oa_bidx := 0 |}], None.
-  eexists. exists [ONwUtxo 0%Z 0; OUtxoRp 0%Z true].
-  split; [vm_compute; reflexivity|]. split; [vm_compute; reflexivity|].
-  vm_compute. intro H. discriminate H.
-Qed.
+Example blinder_refused_leaves_nothing :
+  exists p0, init [{| ia_cls := 0; ia_t := 0; ia_idx := 0; ia_seq := 0; ia_height := 0; ia_time := 0 |}]
+                  [{| oa_cls := 0; oa_amount := 1000; oa_script := Some (SWpkh 1); oa_bk := 1; oa_bidx := 0 |}] None = IOk p0 /\
+    let p := run p0 [ONwUtxo 0%Z 0; OUtxoRp 0%Z true] in step p (OBlind blind_refused) = (p, Err).
+Proof. eexists; split; vm_compute; reflexivity. Qed.
 
 (* the old counterexample of atomicity (shallow Copy): outputs locked, AddInIssuance fails — and now leaves nothing *)
 Example issue_with_outputs_locked :
